@@ -160,7 +160,7 @@ func (wk *worker) dcUnit(block int) {
 		dests := wk.destsFor(cs.Type, cs.Repr)
 		base := cs.Type.Shallow()
 		own := []primitive.ProtocolVersion{cqlgen.LibVersion(cs.Version)}
-		wk.dcExec(codec, cs.Type, base, dests, b, mut{Class: mcValid}, dcVersions)
+		wk.dcExec(codec, cs.Type, base, dests, b, mut{Class: mcValid}, own)
 		if b == nil {
 			continue
 		}
@@ -172,23 +172,44 @@ func (wk *worker) dcUnit(block int) {
 		ctr := 0
 		if sb, err := cqlref.Serialize(cs.Type, softenCQL(cs.Type, cs.Value, &ctr), cs.Version); err == nil && sb != nil {
 			b = sb
-			wk.dcExec(codec, cs.Type, base, dests, b, mut{Class: mcValid, W: 1}, own)
+			wk.dcExec(codec, cs.Type, base, dests, b, mut{Class: mcValid, W: 1}, dcVersions) // also the other collection formats
 		} else {
 			wk.counters["generator/softened-value-not-serializable"]++
 		}
+		// quick tier: a PRNG sample of (offset, width, value) triples instead of all of them: a CQL
+		// value is lengths all the way down, and a changed length makes the decoder read the low byte
+		// of a later length as the high byte of the next one (a 256 MiB request) about ten times per
+		// value; each such request costs a second or a worker
 		sp := sweepSpec{Fields: true, Trunc: true}
-		if len(b) > 160 {
-			sp = sweepSpec{FieldSample: 1200, Trunc: len(b) <= 1024}
+		if !wk.thorough {
+			sp = sweepSpec{FieldSample: 240, Trunc: len(b) <= 1024}
+		} else if len(b) > 48 {
+			sp = sweepSpec{FieldSample: 1200, Trunc: len(b) <= 1024} // thorough: exhaustive for values up to 48 bytes
 		}
 		sweep(b, sp, r, func(in []byte, m mut) { wk.dcExec(codec, cs.Type, base, dests, in, m, own) })
-		sweep(b, sweepSpec{Flips: 64}, r, func(in []byte, m mut) { wk.dcExec(codec, cs.Type, base, dests, in, m, dcVersions) })
+		flips := 64
+		if !wk.thorough {
+			flips = 24
+		}
+		sweep(b, sweepSpec{Flips: flips}, r, func(in []byte, m mut) { wk.dcExec(codec, cs.Type, base, dests, in, m, dcVersions) })
 		if j == 0 {
 			big24Sample(b, 0, 1, r, func(in []byte, m mut) { wk.dcExec(codec, cs.Type, base, dests, in, m, own) })
 		}
-		for k := 0; k < 16; k++ {
-			wk.dcExec(codec, cs.Type, base, dests, biasedBytes(r, r.Intn(65)), mut{Class: mcRandom, O: k, W: 1}, own)
+		// random bytes (biased towards zero) where the first bytes are not an element count: any
+		// non-zero byte among the first four of a list/set/map value is a count of 2^16..2^31
+		if cs.Type.Kind != cqlref.List && cs.Type.Kind != cqlref.Set && cs.Type.Kind != cqlref.Map {
+			for k := 0; k < 16; k++ {
+				wk.dcExec(codec, cs.Type, base, dests, biasedBytes(r, r.Intn(65)), mut{Class: mcRandom, O: k, W: 1}, own)
+			}
+		} else {
+			for k := 0; k < 16; k++ {
+				in := biasedBytes(r, 4+r.Intn(61))
+				in[0], in[1], in[2] = 0, 0, 0 // count 0..255 (v3+) / 0, then whatever follows
+				wk.dcExec(codec, cs.Type, base, dests, in, mut{Class: mcRandom, O: k, W: 2}, own)
+			}
 		}
-		if j == 0 {
+		if j == 0 && cs.Type.Kind != cqlref.List && cs.Type.Kind != cqlref.Set && cs.Type.Kind != cqlref.Map {
+			// uniform random bytes only where the first four bytes are not an element count
 			wk.dcExec(codec, cs.Type, base, dests, r.Bytes(r.Intn(65)), mut{Class: mcRandom, O: 99}, own)
 		}
 	}
